@@ -287,3 +287,139 @@ class GetStatusC04:
                                   " and result._inclusion_bounds.lower == G(k)[0]"
                                   " and result._inclusion_bounds.upper == G(k)[1])",
     )
+
+
+def validated(self, component_ids, system_bounds):
+    """_validate_component_ids succeeds: a bucket exists already, or system bounds are known."""
+    return (component_ids in self._component_buckets
+            or system_bounds.inclusion_bounds is not None or system_bounds.exclusion_bounds is not None)
+
+
+@contract(f"{M}:Matryoshka.calculate_target_power")
+class CalculateTargetPower:
+    """C03 (bucket algebra: the new proposal replaces the one with the same key, nothing else changes),
+    C11 (None means "stored target unchanged"; a returned value is the stored target)."""
+    self_shape = MatryoshkaState
+    shapes = dict(component_ids=Const(CID), proposal=Opt(ProposalT), system_bounds=SystemBoundsT,
+                  must_return_power=Bool)
+    ghost = dict(gp=Int, gs=StrId)
+    result = Opt(PowerT)
+    native_opaque = {"component_ids": CID}
+    inline = [f"{M}:Matryoshka._validate_component_ids"]
+    modifies = ["self._component_buckets", "self._target_power"]
+    requires = dict(zero_inside=C04_REQUIRES["zero_inside"])
+    ensures = dict(
+        # --- validation failure / nothing to do
+        rejected_without_bounds="implies(not old(validated(self, component_ids, system_bounds)),"
+                                " result is None and (component_ids in self._component_buckets) == False"
+                                " and stored_target(self, component_ids) == old(stored_target(self, component_ids)))",
+        # --- C11
+        none_means_unchanged="implies(result is None,"
+                             " stored_target(self, component_ids) == old(stored_target(self, component_ids)))",
+        returned_is_stored="implies(result is not None, stored_target(self, component_ids) == result)",
+        must_return="implies(must_return_power and component_ids in self._component_buckets, result is not None)",
+        stored_in_envelope="implies(component_ids in self._component_buckets,"
+                           " envelope(stored_target(self, component_ids), system_bounds))",
+        # --- C03: bucket' = (bucket minus {same key}) plus {proposal}
+        bucket_created_iff="(component_ids in self._component_buckets) =="
+                           " (old(component_ids in self._component_buckets)"
+                           "  or (proposal is not None and old(validated(self, component_ids, system_bounds))))",
+        proposal_stored="implies(proposal is not None and old(validated(self, component_ids, system_bounds)),"
+                        " keyset_has(bucket(self, component_ids), KEY, (proposal.priority, proposal.source_id))"
+                        " and same_record(keyset_get(bucket(self, component_ids), KEY,"
+                        "                            (proposal.priority, proposal.source_id)), proposal))",
+        others_kept="implies(component_ids in self._component_buckets"
+                    " and not (proposal is not None and gp == proposal.priority and gs == proposal.source_id),"
+                    " keyset_has(bucket(self, component_ids), KEY, (gp, gs))"
+                    " == (old(component_ids in self._component_buckets)"
+                    "     and old(keyset_has(self._component_buckets.get(component_ids, set()), KEY, (gp, gs)))))",
+        others_unchanged="implies(old(component_ids in self._component_buckets)"
+                         " and old(keyset_has(self._component_buckets.get(component_ids, set()), KEY, (gp, gs)))"
+                         " and not (proposal is not None and gp == proposal.priority and gs == proposal.source_id),"
+                         " same_record(keyset_get(bucket(self, component_ids), KEY, (gp, gs)),"
+                         "             old(keyset_get(self._component_buckets.get(component_ids, set()), KEY, (gp, gs))))) ",
+        # --- frame: other component groups are not touched
+        other_group_untouched="(OTHER in self._component_buckets) == old(OTHER in self._component_buckets)"
+                              " and stored_target(self, OTHER) == old(stored_target(self, OTHER))",
+    )
+
+
+# ---------------------------------------------------------------------------------------
+# _Report.adjust_to_bounds: what the actor can compute itself from the report it was sent
+# ---------------------------------------------------------------------------------------
+import re  # noqa: E402
+from contracts.pm_bounds import Clamp, one_sided, the_one, dist  # noqa: E402,F401
+
+
+def _subst(text):
+    for a, b in (("value", "power"), ("lower_bound", "self._inclusion_bounds.lower"),
+                 ("upper_bound", "self._inclusion_bounds.upper"), ("exclusion_bounds", "self._exclusion_bounds")):
+        text = re.sub(rf"\b{a}\b", b, text)
+    return text
+
+
+@contract("frequenz.sdk.microgrid._power_managing._base_classes:_Report.adjust_to_bounds")
+class AdjustToBounds:
+    """C04: adjust_to_bounds is clamp_to_bounds on the reported range, so (with GetStatusC04 and the sweep's
+    contract) it predicts what the manager does with this actor's preferred power."""
+    self_shape = ReportT
+    shapes = dict(power=PowerT)
+    ghost = dict(x=PowerT)
+    result = Tup(Opt(PowerT), Opt(PowerT))
+    pure = True
+    instantiate = {f"{B}:clamp_to_bounds": [dict(x="x")]}
+    requires = dict(ordered="self._inclusion_bounds is None or self._inclusion_bounds.lower <= self._inclusion_bounds.upper")
+    ensures = dict(
+        {"no_bounds": "implies(self._inclusion_bounds is None, result[0] is None and result[1] is None)"},
+        **{name: "implies(self._inclusion_bounds is not None, " + _subst(text) + ")"
+           for name, text in Clamp.ensures.items()},
+    )
+
+
+# ---------------------------------------------------------------------------------------
+# Lemmas about Proposal's real __eq__ / __lt__ (justify the key-map model and the uniqueness of
+# the descending order)
+# ---------------------------------------------------------------------------------------
+from pyvc.spec import lemma  # noqa: E402
+
+
+@lemma("proposal_eq_is_key_equality")
+class ProposalEq:
+    shapes = dict(a=ProposalT, b=ProposalT)
+    ensures = dict(eq_iff_same_key="(a == b) == (a.priority == b.priority and a.source_id == b.source_id)")
+
+
+@lemma("proposal_lt_strict_total_order_on_keys")
+class ProposalLt:
+    shapes = dict(a=ProposalT, b=ProposalT, c=ProposalT)
+    ensures = dict(
+        irreflexive="not (a < a)",
+        asymmetric="implies(a < b, not (b < a))",
+        transitive="implies(a < b and b < c, a < c)",
+        total_on_distinct_keys="implies(not (a == b), a < b or b < a)",
+        by_priority_first="implies(a.priority < b.priority, a < b)",
+    )
+
+
+def expired(p, loop_time, max_age):
+    return (loop_time - p.creation_time) > max_age
+
+
+@contract(f"{M}:Matryoshka.drop_old_proposals")
+class DropOldProposals:
+    """C03: proposals older than the maximum age stop counting; everything else stays.
+    (Bounded stand-in only: the two list-building loops are outside the verifier's subset.)"""
+    self_shape = MatryoshkaOneBucket
+    shapes = dict(loop_time=Real)
+    ghost = dict(gp=Int, gs=StrId)
+    native_opaque = {"component_ids": CID}
+    ensures = dict(
+        kept_iff_young="keyset_has(bucket(self, CID), KEY, (gp, gs)) == ("
+                       "old(keyset_has(bucket(self, CID), KEY, (gp, gs))) and not old("
+                       "keyset_has(bucket(self, CID), KEY, (gp, gs)) and expired(keyset_get(bucket(self, CID), KEY, (gp, gs)),"
+                       " loop_time, self._max_proposal_age_sec)))",
+        survivors_unchanged="implies(keyset_has(bucket(self, CID), KEY, (gp, gs)),"
+                            " same_record(keyset_get(bucket(self, CID), KEY, (gp, gs)),"
+                            " old(keyset_get(bucket(self, CID), KEY, (gp, gs)) if keyset_has(bucket(self, CID), KEY, (gp, gs)) else None)))",
+        targets_untouched="stored_target(self, CID) == old(stored_target(self, CID))",
+    )
